@@ -11,6 +11,7 @@ converted to exact integers here (never compared as floats):
 """
 import random
 import warnings
+import zlib
 from datetime import datetime, timedelta, timezone
 from typing import Any, Dict, Iterator, List, Optional, Tuple
 
@@ -124,7 +125,27 @@ def op_cds_unpack(a):
         raise SelfCheckFailure("pack(unpack(b)) != b[:7]")
     if bytes(e.pack()) != packed:
         raise SelfCheckFailure("pack() after read_from_raw differs from pack() of the stamp unpack returns")
+    if zlib.crc32(raw) & 7 == 0:
+        # (one decoded stamp in eight, chosen by the octets: the sweeps decode ~150 000 stamps)
+        # decoded out of a receive buffer (a bytearray) that the receiver reuses afterwards: the stamp is still the one
+        # that was on the wire - through unpack and through read_from_raw
+        core.check_detached(CdsShortTimestamp.unpack, raw, _detached_view, "CdsShortTimestamp.unpack", expect=_detached_view(s),
+                            memview=core.accepts_memoryview(CdsShortTimestamp.unpack))
+        core.check_detached(_read_from_raw, raw, _detached_view, "CdsShortTimestamp.read_from_raw", expect=_detached_view(s),
+                            memview=core.accepts_memoryview(CdsShortTimestamp.read_from_raw))
     return _stamp_payload(s)
+
+
+def _read_from_raw(buf):
+    e = CdsShortTimestamp.empty()
+    e.read_from_raw(buf)
+    return e
+
+
+def _detached_view(s) -> Dict[str, Any]:
+    v = _stamp_view(s)
+    v["raw"] = hx(s.pack())
+    return v
 
 
 def op_cds_from_dt(a):
